@@ -108,8 +108,29 @@ def correspondence(ctx):
         out["extra"]["transport_pool_cut_evaluations"] = tc.get("evaluations", 0)
         out["extra"]["transport_pool_hist"] = tc.get("hist", {})
         out["samples"] += tc.get("samples", [])[:2]
+        # concurrent operations on one kafka.Conn, first answer cut (checks/c06.py conn_concurrent_cut_cases)
+        cc = c06.conn_concurrent_cut_cases(ctx)
+        out["evaluations"] += cc.get("evaluations", 0)
+        out["distinct_nontrivial"] += cc.get("distinct_nontrivial", 0)
+        out["failures"] += cc.get("failures", [])
+        out["extra"]["conn_concurrent_cut_evaluations"] = cc.get("evaluations", 0)
+        out["extra"]["conn_concurrent_hist"] = cc.get("hist", {})
+        out["samples"] += cc.get("samples", [])[:1]
     except (ModuleNotFoundError, AttributeError):
-        out.setdefault("notes", []).append("checks/c06.py has no transport_cut_cases yet")
+        out.setdefault("notes", []).append("checks/c06.py has no transport_cut_cases / conn_concurrent_cut_cases yet")
+    # raw (SaslHandshake v0) SASL authentication response cut at every byte position, Conn and
+    # Transport paths (checks/c18.py raw_sasl_cut_cases)
+    try:
+        sc = importlib.import_module("checks.c18").raw_sasl_cut_cases(ctx)
+        out["evaluations"] += sc.get("evaluations", 0)
+        out["distinct_nontrivial"] += sc.get("distinct_nontrivial", 0)
+        out["failures"] += sc.get("failures", [])
+        out["extra"]["raw_sasl_cut_evaluations"] = sc.get("evaluations", 0)
+        out["extra"]["raw_sasl_cut_hist"] = sc.get("hist", {})
+        out["samples"] += sc.get("samples", [])[:2]
+        out.setdefault("notes", []).extend(sc.get("notes", []))
+    except (ModuleNotFoundError, AttributeError):
+        out.setdefault("notes", []).append("checks/c18.py has no raw_sasl_cut_cases yet")
     return out
 
 
